@@ -385,7 +385,8 @@ class ObsRow(object):
 
     def __init__(self, rid, prop, mod, func, points, vary, observe, expected,
                  base=None, self_obj=None, cite="", max_depth=3, models=None,
-                 rule="K-pw", what="", inject=None, snippet=None):
+                 rule="K-pw", what="", inject=None, snippet=None,
+                 method_models=None):
         self.rid, self.prop, self.mod, self.func = rid, prop, mod, func
         self.points, self.vary = points, vary
         self.observe, self.expected = observe, expected
@@ -398,6 +399,7 @@ class ObsRow(object):
         self.what = what
         self.inject = inject or {}
         self.snippet = snippet
+        self.method_models = method_models or {}
 
 
 def make_snippet(repo, modname, src):
@@ -445,7 +447,7 @@ def run_obs(check, repo, row):
         inject = dict(row.inject)
         inject.update(seed.get("inject", {}))
         it = Interp(repo, max_depth=row.max_depth, extra_models=row.models,
-                    inject=inject)
+                    inject=inject, method_models=row.method_models)
         st = State()
         memo = {}
         args = dict((k, realise(s, it, st, memo)) for k, s in row.base.items())
